@@ -43,7 +43,8 @@ Section Main.
 
   (* ---- the main theorem ---- *)
   Definition consistent (c : lctx) : Prop :=
-    e_in_sub env = match l_sub_ret c with Some _ => true | None => false end.
+    e_in_sub env = match l_sub_ret c with Some _ => true | None => false end /\
+    (forall i, e_param env i = l_param c i).
 
   Theorem lower_correct o : forall fuel c e, consistent c -> lw_ok (lower o c) (denote env fuel) c e.
   Proof.
@@ -150,8 +151,8 @@ Section Main.
     - (* EWhile *)
       destruct (add_block g (BSimple [] k)) as [en0 g1] eqn:E1.
       destruct (reserve g1) as [br g2] eqn:E2.
-      destruct (lower o (mkL (l_sub_ret c) (Some en0) None) e1 (Some br) g2) as [[cs ce] g3] eqn:E3.
-      destruct (lower o (mkL (l_sub_ret c) (Some en0) (Some cs)) e2 (Some cs) g3) as [[ds de] g4] eqn:E4.
+      destruct (lower o (mkL (l_sub_ret c) (Some en0) None (l_param c)) e1 (Some br) g2) as [[cs ce] g3] eqn:E3.
+      destruct (lower o (mkL (l_sub_ret c) (Some en0) (Some cs) (l_param c)) e2 (Some cs) g3) as [[ds de] g4] eqn:E4.
       inversion E; subst; clear E.
       destruct (add_block_spec _ _ _ _ W E1) as (F1 & B1 & Ien & Nen).
       destruct (reserve_spec _ _ _ (frame_wf _ _ F1) E2) as (F2 & B2 & Ibr & Nbr).
@@ -173,18 +174,18 @@ Section Main.
       { eapply gincl_trans; [|exact G3]. apply frame_gincl; [exact (frame_wf _ _ F2)|exact F3]. }
       assert (G1 : gincl (g_blk g1) G).
       { eapply gincl_trans; [|exact G2]. apply frame_gincl; [exact (frame_wf _ _ F1)|exact F2]. }
-      eapply while_loop_ok with (sub := l_sub_ret c) (en := en) (br := br) (ds := ds).
+      eapply while_loop_ok with (sub := l_sub_ret c) (pm := l_param c) (en := en) (br := br) (ds := ds).
       + apply G1. exact B1.
       + apply HG. exact D3.
-      + intros s1 st1. exact (IH (mkL (l_sub_ret c) (Some en) None) e1 Hcons (Some br) g2 s ce g3 (frame_wf _ _ F2) E3 G G3 s1 st1).
-      + intros s1 st1. exact (IH (mkL (l_sub_ret c) (Some en) (Some s)) e2 Hcons (Some s) g3 ds de g4 (frame_wf _ _ F3) E4 G G4 s1 st1).
+      + intros s1 st1. exact (IH (mkL (l_sub_ret c) (Some en) None (l_param c)) e1 Hcons (Some br) g2 s ce g3 (frame_wf _ _ F2) E3 G G3 s1 st1).
+      + intros s1 st1. exact (IH (mkL (l_sub_ret c) (Some en) (Some s) (l_param c)) e2 Hcons (Some s) g3 ds de g4 (frame_wf _ _ F3) E4 G G4 s1 st1).
     - (* EFor *)
       destruct (add_block g (BSimple [] k)) as [en0 g1] eqn:E1.
       destruct (reserve g1) as [br g2] eqn:E2.
-      destruct (lower o (mkL (l_sub_ret c) (Some en0) None) e2 (Some br) g2) as [[cs ce] g3] eqn:E3.
-      destruct (lower o (mkL (l_sub_ret c) (Some en0) None) e3 (Some cs) g3) as [[ss se] g4] eqn:E4.
-      destruct (lower o (mkL (l_sub_ret c) (Some en0) (Some ss)) e4 (Some ss) g4) as [[ds de] g5] eqn:E5.
-      destruct (lower o (mkL (l_sub_ret c) (Some en0) None) e1 (Some cs) g5) as [[is_ ie] g6] eqn:E6.
+      destruct (lower o (mkL (l_sub_ret c) (Some en0) None (l_param c)) e2 (Some br) g2) as [[cs ce] g3] eqn:E3.
+      destruct (lower o (mkL (l_sub_ret c) (Some en0) None (l_param c)) e3 (Some cs) g3) as [[ss se] g4] eqn:E4.
+      destruct (lower o (mkL (l_sub_ret c) (Some en0) (Some ss) (l_param c)) e4 (Some ss) g4) as [[ds de] g5] eqn:E5.
+      destruct (lower o (mkL (l_sub_ret c) (Some en0) None (l_param c)) e1 (Some cs) g5) as [[is_ ie] g6] eqn:E6.
       inversion E; subst; clear E.
       destruct (add_block_spec _ _ _ _ W E1) as (F1 & B1 & Ien & Nen).
       destruct (reserve_spec _ _ _ (frame_wf _ _ F1) E2) as (F2 & B2 & Ibr & Nbr).
@@ -211,16 +212,16 @@ Section Main.
       { eapply gincl_trans; [|exact G3]. apply frame_gincl; [exact (frame_wf _ _ F2)|exact F3]. }
       assert (G1 : gincl (g_blk g1) G).
       { eapply gincl_trans; [|exact G2]. apply frame_gincl; [exact (frame_wf _ _ F1)|exact F2]. }
-      eapply hdr_ok with (sub := l_sub_ret c) (en := en) (kin := Some cs).
-      + exact (IH (mkL (l_sub_ret c) (Some en) None) e1 Hcons (Some cs) g5 s ie g6 (frame_wf _ _ F5) E6 G G6 stk st).
+      eapply hdr_ok with (sub := l_sub_ret c) (pm := l_param c) (en := en) (kin := Some cs).
+      + exact (IH (mkL (l_sub_ret c) (Some en) None (l_param c)) e1 Hcons (Some cs) g5 s ie g6 (frame_wf _ _ F5) E6 G G6 stk st).
       + apply G1. exact B1.
       + intros s0 st0. cbn [cont_conf].
-        eapply for_loop_ok with (sub := l_sub_ret c) (en := en) (br := br) (ds := ds) (ss := ss).
+        eapply for_loop_ok with (sub := l_sub_ret c) (pm := l_param c) (en := en) (br := br) (ds := ds) (ss := ss).
         * apply G1. exact B1.
         * apply HG. exact D3.
-        * intros s1 st1. exact (IH (mkL (l_sub_ret c) (Some en) None) e2 Hcons (Some br) g2 cs ce g3 (frame_wf _ _ F2) E3 G G3 s1 st1).
-        * intros s1 st1. exact (IH (mkL (l_sub_ret c) (Some en) None) e3 Hcons (Some cs) g3 ss se g4 (frame_wf _ _ F3) E4 G G4 s1 st1).
-        * intros s1 st1. exact (IH (mkL (l_sub_ret c) (Some en) (Some ss)) e4 Hcons (Some ss) g4 ds de g5 (frame_wf _ _ F4) E5 G G5 s1 st1).
+        * intros s1 st1. exact (IH (mkL (l_sub_ret c) (Some en) None (l_param c)) e2 Hcons (Some br) g2 cs ce g3 (frame_wf _ _ F2) E3 G G3 s1 st1).
+        * intros s1 st1. exact (IH (mkL (l_sub_ret c) (Some en) None (l_param c)) e3 Hcons (Some cs) g3 ss se g4 (frame_wf _ _ F3) E4 G G4 s1 st1).
+        * intros s1 st1. exact (IH (mkL (l_sub_ret c) (Some en) (Some ss) (l_param c)) e4 Hcons (Some ss) g4 ds de g5 (frame_wf _ _ F4) E5 G G5 s1 st1).
     - (* EBreak *)
       destruct (add_block g (BSimple [] (l_brk c))) as [b g1] eqn:E1. inversion E; subst; clear E.
       destruct (add_block_spec _ _ _ _ W E1) as (F1 & B1 & _).
@@ -251,7 +252,7 @@ Section Main.
     - (* EReturn *)
       destruct (add_block g (BSimple [I (match l_sub_ret c with Some _ => O_retsub | None => O_return_ end) []] k)) as [opb g1] eqn:E1.
       destruct (add_block_spec _ _ _ _ W E1) as (F1 & B1 & _).
-      unfold consistent in Hcons.
+      pose proof Hcons as [Hsub _].
       destruct v as [x|].
       + destruct (lower o c x (Some opb) g1) as [[s0 xe] g2] eqn:E2. inversion E; subst; clear E.
         pose proof (lower_frame o x c _ _ _ _ (frame_wf _ _ F1) E2) as F2.
@@ -259,12 +260,12 @@ Section Main.
         { eapply gincl_trans; [|exact HG]. apply frame_gincl; [exact (frame_wf _ _ F1)|exact F2]. }
         apply tgt_then with (k1 := Some en).
         * exact (IH c x Hcons (Some en) g1 s xe g' (frame_wf _ _ F1) E2 G HG stk st).
-        * intros s1 st1. cbn [cont_conf]. rewrite Hcons.
+        * intros s1 st1. cbn [cont_conf]. rewrite Hsub.
           destruct (l_sub_ret c).
           -- cbn [tgt]. eapply retsub_block. apply G1. exact B1.
           -- pose proof (return_block G en O_return_ k s1 st1 eq_refl (G1 _ _ B1)) as X.
              destruct s1; cbn [tgt]; exact X.
-      + inversion E; subst; clear E. rewrite Hcons.
+      + inversion E; subst; clear E. rewrite Hsub.
         destruct (l_sub_ret c).
         * cbn [tgt]. eapply retsub_block. apply HG. exact B1.
         * pose proof (return_block G en O_return_ k stk st eq_refl (HG _ _ B1)) as X.
@@ -319,5 +320,10 @@ Section Main.
         * exact (factors_ok (lower o c) (denote env f) c ds (all_frames o c ds) (IHl c Hcons ds)
                             (Some en) g1 dstart de g2 (frame_wf _ _ F1) E2 G G2 s1 st1).
         * intros s2 st2. cbn [cont_conf]. apply ops_block; [exact (combine_plain)|]. apply G1. exact B1.
+    - (* EParam *)
+      destruct (add_block g (BSimple [l_param c i] k)) as [b g1] eqn:E1. inversion E; subst; clear E.
+      destruct (add_block_spec _ _ _ _ W E1) as (F1 & B1 & _).
+      destruct Hcons as [_ Hp]. rewrite Hp.
+      apply op_block_any. apply HG. rewrite B1. destruct (l_param c i); reflexivity.
   Qed.
 End Main.
